@@ -8,9 +8,9 @@ import Rl2tp.Props.C03
 namespace Rl2tp.C08
 open Spec
 
-theorem spec_consumed (o : Opts) (b : Bytes) (m : Msg) (n L : Nat) (h : Spec.decode o b = some (m, n))
+theorem spec_consumed (o : Opts) (b : Bytes) (m : Msg) (n L : Nat) (h : Spec.decodeM o b = some (m, n))
     (hd : m.declared = some L) : n = L := by
-  unfold Spec.decode at h
+  unfold Spec.decodeM at h
   split at h
   · cases h
   simp only [] at h
@@ -21,7 +21,7 @@ theorem spec_consumed (o : Opts) (b : Bytes) (m : Msg) (n L : Nat) (h : Spec.dec
   generalize hw : u16At b 0 = w at h
   by_cases hc : isControl w = true
   · rw [if_pos hc] at h
-    cases hin : Spec.decodeControl w o (b.drop 2) with
+    cases hin : Spec.decodeControlM w o (b.drop 2) with
     | none => rw [hin] at h; cases h
     | some p =>
       rw [hin] at h
@@ -32,7 +32,7 @@ theorem spec_consumed (o : Opts) (b : Bytes) (m : Msg) (n L : Nat) (h : Spec.dec
       simp only [Option.some.injEq] at hd
       omega
   · rw [if_neg hc] at h
-    cases hin : Spec.decodeData w (b.drop 2) with
+    cases hin : Spec.decodeDataM w (b.drop 2) with
     | none => rw [hin] at h; cases h
     | some p =>
       rw [hin] at h
@@ -45,7 +45,7 @@ theorem spec_consumed (o : Opts) (b : Bytes) (m : Msg) (n L : Nat) (h : Spec.dec
         omega
       · -- without the L bit the decoded message declares no length
         exfalso
-        unfold Spec.decodeData at hin
+        unfold Spec.decodeDataM at hin
         simp only [hL, Bool.false_eq_true, if_false] at hin
         generalize (if hasOffset w = true then (u16At (b.drop 2) (dataNeed w - 2)).toNat else 0) = pad at hin
         by_cases d1 : (b.drop 2).length < dataNeed w
